@@ -95,6 +95,9 @@ pub fn check(tier: Tier) -> Check {
             tier.pick(15, 300),
         ));
     }
+    // value flavour (DESIGN 4): the same exploration with requests / inbound messages of unusual content
+    parts.push(Part::new("C17/resume", json!({"depth": tier.pick(5, 6), "expiry": 1000, "secs_ago": 10, "vals": 1}), 0, tier.pick(15, 300)));
+    parts.push(Part::new("C17/resume", json!({"depth": tier.pick(4, 5), "expiry": 0, "secs_ago": 10, "vals": 1}), 0, tier.pick(15, 300)));
     Check {
         also_rel: false,
         property: "C17",
